@@ -161,6 +161,8 @@ class FuncInfo:
         else:
             for st in self.node.body:
                 yield st
+                if isinstance(st, (ast.FunctionDef, ast.AsyncFunctionDef, ast.ClassDef)):
+                    continue
                 yield from walk_no_nested(st, include_lambdas)
 
     def local_bindings(self):
